@@ -53,6 +53,28 @@ def reset_digest(message: Message) -> Message:
     return output
 
 
+def zero_received_digest(raw: bytes) -> bytes:
+    """
+    Replace the digest inside the octets of a message *as received* with
+    zeroes, leaving every other octet untouched.
+
+    :rfc:`3414#section-6.3.2` authenticates "wholeMsg" as it was received. A
+    re-serialised message may use another (equally valid) length-encoding
+    than the sender, which changes the digest.
+
+    :param raw: The complete message as received from the network
+    :returns: The same octets with a zeroed digest
+    """
+    message, _ = decode(raw, enforce_type=Sequence)
+    secparams, _ = decode(raw, message[2].bounds.start, enforce_type=Sequence)
+    digest = secparams[4].bounds
+    return (
+        raw[: digest.start]
+        + b"\x00" * (digest.stop - digest.start)
+        + raw[digest.stop :]
+    )
+
+
 class USMError(SnmpError):
     """
     Generic exception for errors cased by the USM module
@@ -320,10 +342,13 @@ def verify_authentication(
         )
 
     auth_method = auth.create(credentials.auth.method)
-    without_digest = reset_digest(message)
+    if message.raw:
+        without_digest = zero_received_digest(message.raw)
+    else:
+        without_digest = bytes(reset_digest(message))
     is_authentic = auth_method.authenticate_incoming_message(
         credentials.auth.key,
-        bytes(without_digest),
+        without_digest,
         security_params.auth_params,
         security_params.authoritative_engine_id,
     )
